@@ -53,7 +53,7 @@ def _finish(m, sig, designer_terms, private_terms):
     return True
 
 
-OWN = ("i", "j", "k", "u", "b", "r", "q", "s", "d", "dd", "bp")  # names the designer (this harness) gives to other objects of the same module
+OWN = ("i", "j", "k", "u", "b", "r", "q", "s", "d", "dd", "bp", "d2")  # names the designer (this harness) gives to other objects of the same module
 
 
 def _site(site, nm, nm2, late):
@@ -62,7 +62,7 @@ def _site(site, nm, nm2, late):
     env.reset_all()
     m = h.Module(name="Top")
     C = _cell()
-    sig = h.Port(name=nm) if site in (9, 10, 12) else h.Signal(name=nm)  # 9 / 10 / 12: the designer's object is a PORT
+    sig = h.Port(name=nm) if site in (9, 10, 12, 15) else h.Signal(name=nm)  # 9 / 10 / 12 / 15: the designer's object is a PORT
     extra = h.Signal(name=nm2) if site == 7 else None
     if site == 9:
         site_eff = 2
@@ -70,6 +70,8 @@ def _site(site, nm, nm2, late):
         site_eff = 1
     elif site == 12:
         site_eff = 0
+    elif site == 15:
+        site_eff = 14
     else:
         site_eff = site
     site, site_orig = site_eff, site
@@ -106,6 +108,10 @@ def _site(site, nm, nm2, late):
         m.i = C({})(a=m.b.x, b=m.b.x_)
         m.j = C({})(a=m.b.y_z, b=m.b.y.z)
         des, priv = [], [("i", "a"), ("i", "b"), ("j", "a"), ("j", "b")]
+    elif site == 14:   # instance-array elements <array>_<k> against a designer SIGNAL / PORT of that name
+        m.d2 = h.Signal(width=2)
+        m.r = h.InstanceArray(of=C({}), n=2)(a=sig, b=m.d2)
+        des, priv = [], []
     elif site == 4:    # one named no-connect object shared by two ports
         nc = h.NoConn(name="xy")
         m.i = C({})(a=sig, b=nc)
@@ -204,7 +210,8 @@ _SITES = {0: "named no-connect 'xy'", 1: "unnamed no-connect (implicit i_b)", 2:
           3: "flattened bundle member (b_x)", 4: "one named no-connect shared by two ports",
           8: "four members of one bundle with mutually colliding flattened names (b_x, b_x_, b_y_z from a scalar and from a nested member)",
           9: "implicit signal behind a port reference (i_a) against a designer PORT", 10: "unnamed no-connect (i_b) against a designer PORT",
-          12: "named no-connect 'xy' against a designer PORT"}
+          12: "named no-connect 'xy' against a designer PORT",
+          14: "instance-array elements (r_0, r_1) against a designer SIGNAL", 15: "instance-array elements (r_0, r_1) against a designer PORT"}
 for _k, _txt in _SITES.items():
     def _mk(k):
         def f(nm, late):
@@ -213,7 +220,7 @@ for _k, _txt in _SITES.items():
         return f
     _f = _mk(_k)
     globals()[_f.__name__] = harness(
-        "C05", args="nm: str, late: bool", pre=[], tiers=_T(3), sample=("xy" if _k in (0, 4, 12) else ("b_x" if _k == 8 else "i_b"), False),
+        "C05", args="nm: str, late: bool", pre=[], tiers=_T(3), sample=("r_0" if _k in (14, 15) else "xy" if _k in (0, 4, 12) else ("b_x" if _k == 8 else "i_b"), False),
         bounds=f"naming site: {_txt}; designer signal name = any string of length <= 3 (quick) / <= 8 (thorough); declared before or after the instances",
         generalises="the designer's name as a symbolic string; declaration order", outside="longer names")(_f)
 
